@@ -209,11 +209,25 @@ CLAIMED.update({
         "store_true, nargs='+', one optional positional; abbreviations and --flag=value only exercised end to end); ConfigParser's reading of the ini text is not "
         "modelled (the theorem starts from the (key, value) pairs); the documented option table as transcribed in Model/Routes.v and harness/props/c20.py.",
         "DESIGN.md section 5 C20"),
+    "C08": (
+        "Coq proof (enumeration-order, outer-option, clock, location and path-spelling irrelevance of the creator models and of a lexical model of posixpath/pathlib) + extracted-model byte correspondence under controlled enumeration + metamorphic search",
+        "Machine-checked proof, for all hash functions, trees (any enumeration order of every directory: node_perm), options and piece lengths, that each of "
+        "the four creator models writes the same value whatever the enumeration order; that the info dictionary does not depend on trackers, web seeds, "
+        "http seeds, creation date or created-by and the rest of the file differs at most in those top-level keys (two runs differ only in the creation "
+        "date); that the v1 creator's result does not depend on the root path string; and, over an executable lexical model of os.path.normpath / abspath / "
+        "relpath / basename and pathlib (Spec/PathSem.v), that every spelling of the same location (relative/absolute, '.' segments anywhere, doubled and "
+        "trailing separators, x/.. detours; inductive relation same_location) gives the same abspath, the same torrent name and the same recorded path "
+        "components for every file below it.  Tie: the bytes each real creator writes vs encode(create_X) of the extracted model with the directory "
+        "enumeration order, clock, cwd and spelling controlled by runner-side patches; PathSem functions vs posixpath/pathlib on generated strings; "
+        "search: raw info span and whole file minus creation date across permutations, spellings, working directories, copies, tracker/seed/outfile/"
+        "progress/quiet settings and clock values, library and CLI.",
+        "Trusted: Coq kernel; hand models Model/Creators.v and Spec/PathSem.v (POSIX flavour, lexical: no symbolic links) tied by differential execution; "
+        "os.listdir/os.scandir patching reproduces every enumeration order the OS could produce; outfile/progress/quiet are not inputs of the creator models "
+        "(exercised end to end only).",
+        "DESIGN.md section 5 C08"),
 })
 
-PENDING = {
-    "C08": "work in progress, not a limit of the technique: the enumeration-irrelevance theorems exist (Proofs/CreatorsProofs.v) but Props/C08.v, the unit tie of Model/Creators.v and the metamorphic harness are not registered yet",
-}
+PENDING = {}
 
 
 def main():
